@@ -135,6 +135,15 @@ def _impl(tier, seed, search):
         Tm = np.eye(4); Tm[:3, :3] = R; Tm[:3, 3] = t
         ref = R @ p
         from spatialmath import Quaternion
+        # half turns about fixed general axes (trace + 1 rounds to either side of zero), built two ways, entering the quaternion routes
+        if i < 40:
+            ah_ = np.array([(1, 2, 3), (1, 1, 0), (2, -1, 2), (3, 4, 12), (1, -4, 8), (2, 3, 6), (-1, 2, 2), (1, 1, 1), (4, 3, 1), (1, 0, 1)][i % 10], float); ah_ = ah_ / np.linalg.norm(ah_)
+            Rh_ = (2 * np.outer(ah_, ah_) - np.eye(3)) if i < 10 else b.angvec2r(math.pi * (1 if i < 20 else -1) + (0.0 if i < 30 else 1e-9), ah_)
+            ph_ = np.array([1.0, -2.0, 0.5]); th_ = np.array([0.3, -0.2, 0.5]); Th_ = np.eye(4); Th_[:3, :3] = Rh_; Th_[:3, 3] = th_
+            from spatialmath.DualQuaternion import UnitDualQuaternion as UDQ_
+            for nm_, call_, want_ in (('UQ(R)*p', lambda: UnitQuaternion(Rh_) * ph_, Rh_ @ ph_), ('UQ(SO3)*p', lambda: UnitQuaternion(SO3(Rh_, check=False)) * ph_, Rh_ @ ph_), ('UDQ(SE3)*p', lambda: UDQ_(SE3(Th_, check=False)) * ph_, Rh_ @ ph_ + th_)):
+                ok, r = L.noraise(f'{nm_}(half turn)', call_, dict(R=Rh_, axis=ah_, p=ph_), f'{nm_} for a half turn about a general axis', sig='half-turn:raises')
+                if ok: L.close(f'{nm_}(half turn)', np.asarray(r, float).flatten(), want_, 1e-7, 3.0, dict(R=Rh_, axis=ah_, p=ph_), what=f'{nm_} for a half turn about a general axis differs from R p', sig='half-turn')
         ok, r = L.noraise('UQ*p', lambda: UnitQuaternion(qv) * p, dict(q=qv, p=p), 'UnitQuaternion * point')
         if ok: L.close('UQ*p', np.asarray(r, float).flatten(), ref, TOL, float(np.max(np.abs(p))), dict(q=qv, p=p))
         # inverse undoes the action — with the inverse taken first, then the object used again (single- and multi-valued)
